@@ -222,6 +222,19 @@ fn find_item(items: &[syn::Item], sel: &[String]) -> Option<Found> {
             }
             None
         }
+        "use" => {
+            // first `use` item whose token text mentions the given identifier
+            for it in items {
+                if let syn::Item::Use(u) = it {
+                    let txt = quote::ToTokens::to_token_stream(u).to_string();
+                    let words: Vec<&str> = txt.split(|c: char| !(c.is_alphanumeric() || c == '_')).collect();
+                    if sel[1..].iter().all(|s| words.iter().any(|w| w == s)) {
+                        return Some(Found::Other(it.clone()));
+                    }
+                }
+            }
+            None
+        }
         "const" | "struct" | "enum" | "static" | "type" => {
             for it in items {
                 let ok = match it {
@@ -452,6 +465,24 @@ fn main() {
     let tmpl = fs::read_to_string(&args[1]).unwrap_or_else(|e| die(3, &format!("read template: {e}")));
     let repo = &args[2];
     let vroot = &args[3];
+    // `//@include-template <path>`: textual inclusion of another template (may contain //@extract blocks)
+    fn expand(text: &str, vroot: &str, depth: usize) -> String {
+        if depth > 8 { die(3, "include-template nesting too deep"); }
+        let mut out = String::new();
+        for line in text.lines() {
+            if let Some(rest) = line.trim_start().strip_prefix("//@include-template") {
+                let path = format!("{vroot}/{}", rest.trim());
+                let t = fs::read_to_string(&path).unwrap_or_else(|e| die(3, &format!("include-template {path}: {e}")));
+                out.push_str(&expand(&t, vroot, depth + 1));
+                if !out.ends_with('\n') { out.push('\n'); }
+            } else {
+                out.push_str(line);
+                out.push('\n');
+            }
+        }
+        out
+    }
+    let tmpl = expand(&tmpl, vroot, 0);
     let segs = parse_template(&tmpl);
     let mut out = String::new();
     let mut items_report: Vec<Value> = Vec::new();
